@@ -5,6 +5,7 @@ import (
 	"context"
 	"fmt"
 	"sort"
+	"strings"
 	"time"
 
 	"github.com/synnaxlabs/cesium"
@@ -25,6 +26,24 @@ type wstate struct {
 	specs    map[uint32]ChanSpec
 	inflight []pend // written, not yet acknowledged
 	pending  []pend // acknowledged, not committed (auto-commit off)
+	lazy     []pend // committed, index persistence not known (auto-commit with a persist interval)
+}
+
+// Stamp identifies a written sample.
+type Stamp struct {
+	TS  int64
+	Gen int
+}
+
+// SessionLog is the client-side record of one writer session, used by the crash oracle:
+// the samples in issue order per channel and the commit boundaries (sample counts at which
+// a commit was issued).
+type SessionLog struct {
+	Gen        int
+	Chans      []uint32
+	Stamps     []int64 // issue order
+	Boundaries []int   // counts (of Stamps) at which a commit was issued (every write when auto-commit)
+	AutoCommit bool
 }
 
 // Mismatch describes a read that disagrees with the model.
@@ -49,14 +68,20 @@ type Mismatch struct {
 
 // Exec drives a script against a real cesium DB.
 type Exec struct {
-	Ctx     context.Context
-	FS      xfs.FS
-	Dir     string
-	Script  *Script
-	DB      *cesium.DB
-	Model   *Model
-	writers map[int]*wstate
-	specs   map[uint32]ChanSpec
+	Ctx    context.Context
+	FS     xfs.FS
+	Dir    string
+	Script *Script
+	DB     *cesium.DB
+	Model  *Model
+	// Durable holds the samples whose commit completed with index persistence
+	// (always-persist auto-commits, explicit commits with auto-commit off, closed writers).
+	Durable *Model
+	// Ever holds every (channel, ts) -> value ever handed to Write (latest generation).
+	Ever     map[uint32]map[string]Stamp // channel -> value bytes -> (timestamp, generation)
+	Sessions map[int]*SessionLog
+	writers  map[int]*wstate
+	specs    map[uint32]ChanSpec
 
 	// Observations
 	ReadsCompared   int
@@ -68,14 +93,22 @@ type Exec struct {
 	Deletes         int
 	DeletedSamples  int
 	DeletesRefused  int
-	GCs             int
-	reopened        bool
-	opIdx           int
+	// DeleteTags accumulates the known-finding precondition tags of the deletes issued so
+	// far; Tainted stops read comparison after a delete failed part-way.
+	DeleteTags string
+	Tainted    bool
+	// DeletesRefusedVacuous counts index deletes the engine refused although no dependant
+	// holds a sample in the range, where the request itself covered no sample either.
+	DeletesRefusedVacuous int
+	GCs                   int
+	reopened              bool
+	opIdx                 int
 
 	// Hooks
-	AfterOp      func(i int, op Op, e *Exec) // called after each op returns (C02 markers)
-	BeforeOp     func(i int, op Op, e *Exec)
-	ExtraOptions []cesium.Option
+	OnChannelCreated func(c ChanSpec)
+	AfterOp          func(i int, op Op, e *Exec) // called after each op returns (C02 markers)
+	BeforeOp         func(i int, op Op, e *Exec)
+	ExtraOptions     []cesium.Option
 	// AutoReads adds automatic-chunking (AutoSpan) walks to the generated reads.
 	AutoReads bool
 	// CheckGC, when set, performs the metamorphic GC check (full read before/after).
@@ -85,7 +118,8 @@ type Exec struct {
 }
 
 func NewExec(fs xfs.FS, s *Script) *Exec {
-	e := &Exec{Ctx: context.Background(), FS: fs, Dir: "db", Script: s, Model: NewModel(),
+	e := &Exec{Ctx: context.Background(), FS: fs, Dir: "db", Script: s, Model: NewModel(), Durable: NewModel(),
+		Ever: map[uint32]map[string]Stamp{}, Sessions: map[int]*SessionLog{},
 		writers: map[int]*wstate{}, specs: map[uint32]ChanSpec{}}
 	return e
 }
@@ -121,7 +155,12 @@ func (e *Exec) Setup() error {
 				return fmt.Errorf("create channel %v: %w", c, err)
 			}
 			e.Model.AddChannel(c)
+			e.Durable.AddChannel(c)
+			e.Ever[c.Key] = map[string]Stamp{}
 			e.specs[c.Key] = c
+			if e.OnChannelCreated != nil {
+				e.OnChannelCreated(c)
+			}
 		}
 	}
 	return nil
@@ -175,6 +214,7 @@ func (e *Exec) Step(i int, op Op) bool {
 			ws.specs[k] = e.specs[k]
 		}
 		e.writers[op.W] = ws
+		e.Sessions[op.W] = &SessionLog{Gen: op.Gen, Chans: op.Chans, AutoCommit: op.AutoCommit}
 	case "write":
 		ws := e.writers[op.W]
 		if ws == nil {
@@ -192,6 +232,14 @@ func (e *Exec) Step(i int, op Op) bool {
 			}
 			keys = append(keys, k)
 			series = append(series, BuildSeries(spec, vals))
+		}
+		for _, p := range ps {
+			e.Ever[p.key][string(p.val)] = Stamp{p.ts, ws.op.Gen}
+		}
+		sl := e.Sessions[op.W]
+		sl.Stamps = append(sl.Stamps, op.TS...)
+		if ws.op.AutoCommit {
+			sl.Boundaries = append(sl.Boundaries, len(sl.Stamps))
 		}
 		auth, err := ws.w.Write(telem.MultiFrame(keys, series))
 		if err != nil {
@@ -213,6 +261,9 @@ func (e *Exec) Step(i int, op Op) bool {
 		if ws == nil {
 			return true
 		}
+		if sl := e.Sessions[op.W]; !ws.op.AutoCommit {
+			sl.Boundaries = append(sl.Boundaries, len(sl.Stamps))
+		}
 		if _, err := ws.w.Commit(); err != nil {
 			e.fail(i, "Commit", err)
 			e.abandon(op.W)
@@ -233,7 +284,11 @@ func (e *Exec) Step(i int, op Op) bool {
 		}
 		e.ack(ws)
 		// auto-commit: every acknowledged write was committed; otherwise the
-		// uncommitted tail is discarded
+		// uncommitted tail is discarded. A closed writer's commits are persisted.
+		for _, p := range ws.lazy {
+			e.Durable.Put(p.key, p.ts, p.val)
+		}
+		ws.lazy = nil
 	case "reads":
 		if len(e.writersNotQuiescent()) > 0 {
 			return true
@@ -276,6 +331,11 @@ func (e *Exec) ack(ws *wstate) {
 	if ws.op.AutoCommit {
 		for _, p := range ws.inflight {
 			e.Model.Put(p.key, p.ts, p.val)
+			if ws.op.Persist == -1 {
+				e.Durable.Put(p.key, p.ts, p.val)
+			} else {
+				ws.lazy = append(ws.lazy, p)
+			}
 		}
 	} else {
 		ws.pending = append(ws.pending, ws.inflight...)
@@ -286,6 +346,7 @@ func (e *Exec) ack(ws *wstate) {
 func (e *Exec) commit(ws *wstate) {
 	for _, p := range ws.pending {
 		e.Model.Put(p.key, p.ts, p.val)
+		e.Durable.Put(p.key, p.ts, p.val) // explicit commits always persist the index
 	}
 	ws.pending = nil
 }
@@ -337,6 +398,40 @@ func (e *Exec) doDelete(i int, op Op) bool {
 			}
 		}
 	}
+	// Precondition tags of the two open known findings (R6, R7 in DESIGN.md), computed
+	// from the model BEFORE the delete so that they describe the input, not the outcome.
+	tag := ""
+	for _, k := range op.Chans {
+		if !e.specs[k].IsIndex {
+			continue
+		}
+		nonVacuous := false
+		for _, q := range op.Chans {
+			if e.Model.HasAny(q, op.A, op.B) {
+				nonVacuous = true
+			}
+		}
+		for _, c := range e.specs {
+			if c.Index != k || c.IsIndex {
+				continue
+			}
+			// R6: a requested dependant that holds samples, but none in the range
+			if inReq[c.Key] && nonVacuous && e.Model.Len(c.Key) > 0 && !e.Model.HasAny(c.Key, op.A, op.B) {
+				tag += "r6pre,"
+			}
+			// R7: the range ends one nanosecond after a dependant's sample and not on an
+			// index sample (the start of a rollover domain of that dependant)
+			if e.Model.Has(c.Key, op.B-1) && !e.Model.Has(k, op.B) {
+				tag += "r7pre,"
+			}
+		}
+	}
+	if strings.Contains(tag, "r6pre") && !strings.Contains(e.DeleteTags, "r6pre") {
+		e.DeleteTags += "r6pre,"
+	}
+	if strings.Contains(tag, "r7pre") && !strings.Contains(e.DeleteTags, "r7pre") {
+		e.DeleteTags += "r7pre,"
+	}
 	err := e.DB.DeleteTimeRange(e.Ctx, op.Chans, telem.TimeRange{Start: telem.TimeStamp(op.A), End: telem.TimeStamp(op.B)})
 	e.Deletes++
 	if refuse {
@@ -349,13 +444,37 @@ func (e *Exec) doDelete(i int, op Op) bool {
 		}
 		return true
 	}
+	if err != nil && strings.Contains(err.Error(), "cannot delete index channel") {
+		// The statement only says when an index delete MUST be refused. The engine decides
+		// "a dependant has data in that range" per stored domain (a contiguous extent), so
+		// it also refuses a range that falls between two samples of a dependant's domain
+		// (or an empty range inside it). When no requested channel holds a sample in the
+		// range the request was vacuous: the refusal changes nothing a read can observe,
+		// the model stays as it is and the script continues. A refusal of a request that
+		// does hold samples of the requested channels is still reported below.
+		vacuous := true
+		for _, k := range op.Chans {
+			if e.Model.HasAny(k, op.A, op.B) {
+				vacuous = false
+			}
+		}
+		if vacuous {
+			e.DeletesRefusedVacuous++
+			return true
+		}
+	}
 	if err != nil {
 		e.Violations = append(e.Violations, fmt.Sprintf("delete-refused-or-failed: op %d chans %v [%d,%d): %v", i, op.Chans, op.A, op.B, err))
 		e.fail(i, "DeleteTimeRange", err)
+		// a failed multi-channel delete may have been applied to some of the channels;
+		// what reads return afterwards is a consequence of this (already reported)
+		// failure and is not judged
+		e.Tainted = true
 		return false
 	}
 	for _, k := range op.Chans {
 		e.DeletedSamples += e.Model.Delete(k, op.A, op.B)
+		e.Durable.Delete(k, op.A, op.B)
 	}
 	return true
 }
@@ -600,6 +719,9 @@ func (e *Exec) ReadRaw(rs ReadSpec) (map[uint32][][]byte, error) {
 
 // CheckRead compares one read with the model.
 func (e *Exec) CheckRead(rs ReadSpec) {
+	if e.Tainted {
+		return
+	}
 	got, err := e.ReadRaw(rs)
 	e.ReadsCompared++
 	base := Mismatch{A: rs.A, B: rs.B, Mode: rs.Mode, Span: rs.Span, Keys: rs.Keys, AfterOp: e.opIdx, Reopened: e.reopened}
